@@ -63,6 +63,7 @@ func __mod[T any](p *T) {}
 func __modall[T any](x T) {}
 func __same[T any](a, b T) bool { panic("spec") }
 func __cases(x int, vals ...int) bool { return true }
+func __has[K comparable, V any](m map[K]V, k K) bool { _, ok := m[k]; return ok }
 `
 
 func loadEngine(repo string, patterns []string, extraOverlay map[string][]byte) (*Engine, error) {
@@ -640,6 +641,11 @@ func (g *overlayGen) paramsFromNode(fi *funcInfo, node ast.Node, withResults boo
 			}
 		}
 		if types.Universe.Lookup(name) != nil {
+			continue
+		}
+		if name == "rangeidx" {
+			params = append(params, ClauseParam{Kind: pkRangeIdx, Name: name})
+			decl = append(decl, "rangeidx int")
 			continue
 		}
 		if fi.extPkg == nil && g.p.Types.Scope().Lookup(name) != nil {
